@@ -75,7 +75,7 @@ CLAIMS = {
     ),
     "C20": dict(
         text="PARTIAL proof + differential execution against the real dis. Proved in Coq: for every host 3.8-3.13 (its dis._get_code_object translated from its own dis.py on every run) and EVERY object tree without a func_code attribute, xdis's get_code_object (translated from /repo) returns the same code object or raises TypeError exactly as dis does (chain-equivalence checker with a proved soundness lemma); the first_line shift is dis's rule. The decoders behind the API are C02/C03/C04/C05/C09/C17. Executed on all six hosts: xdis.std vs the host's own dis on functions, closures, methods, lambdas, generators, coroutines, async generators, code objects, module code and source strings - get_instructions and Bytecode with and without first_line (opcode, opname, arg, offset, is_jump_target, starts_line, table/jump argval), findlabels, findlinestarts, opmap/opname/hasconst/hasname/HAVE_ARGUMENT/EXTENDED_ARG; make_std_api(v) on files compiled by v compared between host v and other hosts. The model's coercion outcomes and shifted lines are compared with the implementation inside Coq.",
-        note="Trusted: Coq kernel; fail-closed AST translator tools/translate/stdapi.py; the hosts' dis as oracle; harness object zoo (tools/harness/ops_std.py). CACHE pseudo-instructions excluded from the comparison. Known findings D40/D41 (3.13-only: is_jump_target at exception-range boundaries; WITH_EXCEPT_START arg None). No axioms.",
+        note="Trusted: Coq kernel; fail-closed AST translator tools/translate/stdapi.py; the hosts' dis as oracle; harness object zoo (tools/harness/ops_std.py). CACHE pseudo-instructions excluded from the comparison. Known finding D40 (3.13 only: dis flags is_jump_target at exception-range boundaries too, which C04's definition excludes). D41 (WITH_EXCEPT_START operand) and D42 (CACHE entries) were repaired. No axioms.",
         technique="source-to-Coq translation + Coq proof (checker soundness by induction) + differential execution against dis on six hosts",
         design="7/C20",
     ),
